@@ -12,7 +12,9 @@ ATTS_QUICK = [0, 1, 62, 63, 64, 65, 66, 127, 128, 252, 253, 254, 300]
 def configs(tier):
     if tier == "quick":
         return [{"name": "sb4096", "sb": 4096, "lens": data_lens, "atts": ATTS_QUICK, "maxfault": 0,
-                 "mixes": [0, 1, 2, 4]}]
+                 "mixes": [0, 1, 2, 4]},
+                # the limit must also hold on the path a single-packet message takes after ENOBUFS (it is re-sent fragmented)
+                {"name": "sb4096-faults", "sb": 4096, "lens": data_lens, "atts": [63, 64, 65], "maxfault": 2, "mixes": [2]}]
     return [
         {"name": "sb4096-all", "sb": 4096, "lens": data_lens, "atts": list(range(0, 301)), "maxfault": 0,
          "mixes": [0, 1, 2, 3, 4]},
